@@ -12,10 +12,17 @@ from ..report import AnalysisError, RuleResult
 LOOKUPS = ("find_object", "find_object_or_none", "find_parent_object")
 
 
-def pathend(repo):
+def pathend(repo, modules=None):
     res = RuleResult("R-PATHEND")
     for m in repo.modules.values():
+        if modules is not None and m.rel not in modules:
+            continue
         for f in m.funcs.values():
+            # locals bound exactly once to `<ref>.path[k]` are followed into the lookup call
+            bound = {}
+            for n in walk_no_nested_funcs(f.node):
+                if isinstance(n, ast.Assign) and len(n.targets) == 1 and isinstance(n.targets[0], ast.Name):
+                    bound.setdefault(n.targets[0].id, []).append(n.value)
             walks = set()
             for n in walk_no_nested_funcs(f.node):
                 if isinstance(n, (ast.For, ast.comprehension)) and isinstance(n.iter, ast.Subscript) \
@@ -27,6 +34,8 @@ def pathend(repo):
                 if not (isinstance(n, ast.Call) and (call_name(n) or "").split(".")[-1] in LOOKUPS and n.args):
                     continue
                 a = n.args[0]
+                if isinstance(a, ast.Name) and len(bound.get(a.id, ())) == 1:
+                    a = bound[a.id][0]
                 if not (isinstance(a, ast.Subscript) and isinstance(a.value, ast.Attribute) and a.value.attr == "path"):
                     continue
                 try:
@@ -45,7 +54,7 @@ def pathend(repo):
                         f"path[{k}]; a field reference denotes its last component (path[-1]).  For references with more than one "
                         "component (a.b, or the aliases generated for anonymous bits) the lookup continues from the wrong object",
                         m.rel, n.lineno, f.qualname)
-    if res.instances < 4:
+    if res.instances < (4 if modules is None else 1) and not res.findings:
         raise AnalysisError(f"only {res.instances} field-reference lookups found")
     res.analysed = sorted({m.rel for m in repo.modules.values()})[:0] or ["compiler/front_end/*.py", "compiler/back_end/cpp/header_generator.py"]
     return res
@@ -151,4 +160,231 @@ def scopevis(repo, schema=None, sites=None):
         raise AnalysisError(f"symbol_resolver: only {res.instances} visibility constants in registration actions")
     res.samples = [f"{sorted((k, sorted(v)) for k, v in kind_of.items() if 'scope' in k)[:6]}"]
     res.analysed = [m.rel]
+    return res
+
+
+def scopechain(repo):
+    """R-SCOPECHAIN (C12): lexical scoping.  Every traversal action of the symbol resolver that opens a scope (returns
+    a dict with "visible_scopes") and receives the inherited `visible_scopes` must return `(own scope,) + visible_scopes`:
+    the whole inherited list, unsliced and unfiltered (a name visible outside stays visible -- and stays *ambiguous* --
+    inside), with the new scope first (the search in _find_target_of_reference goes innermost to outermost) and equal to
+    the returned "current_scope"."""
+    res = RuleResult("R-SCOPECHAIN")
+    m = repo.mod("compiler/front_end/symbol_resolver.py")
+    for f in m.top_funcs():
+        params = [a.arg for a in f.node.args.args]
+        for n in walk_no_nested_funcs(f.node):
+            if not (isinstance(n, ast.Return) and isinstance(n.value, ast.Dict)):
+                continue
+            d = {k.value: v for k, v in zip(n.value.keys, n.value.values) if isinstance(k, ast.Constant)}
+            if "visible_scopes" not in d:
+                continue
+            v = d["visible_scopes"]
+            if "visible_scopes" not in params:
+                # the root of the chain (module level): nothing to inherit
+                res.samples.append(f"{f.name}: root of the scope chain")
+                continue
+            res.instances += 1
+            key = f"{m.rel}|{f.name}"
+            operands = []
+
+            def flat(e):
+                if isinstance(e, ast.BinOp) and isinstance(e.op, ast.Add):
+                    flat(e.left)
+                    flat(e.right)
+                else:
+                    operands.append(e)
+            flat(v)
+            bare = [o for o in operands if isinstance(o, ast.Name) and o.id == "visible_scopes"]
+            if not bare:
+                used = [ast.unparse(o) for o in operands if any(isinstance(x, ast.Name) and x.id == "visible_scopes" for x in ast.walk(o))]
+                res.add(key + "|inherit", f"{f.name} builds its scope list from `{used[0] if used else ast.unparse(v)}` instead of the "
+                        "whole inherited `visible_scopes`: names visible in an enclosing scope (types nested in the enclosing "
+                        "structure) are no longer found, and names that were ambiguous silently bind to an outer definition",
+                        m.rel, n.lineno, f.name)
+                continue
+            first = operands[0]
+            cur = d.get("current_scope")
+            if not (isinstance(first, ast.Tuple) and len(first.elts) == 1 and operands[-1] is bare[-1]):
+                res.add(key + "|order", f"{f.name} does not put its own scope first: `{ast.unparse(v)}` (search order is innermost "
+                        "to outermost)", m.rel, n.lineno, f.name)
+            elif cur is not None and ast.unparse(first.elts[0]) != ast.unparse(cur):
+                res.add(key + "|own", f"{f.name}: first searched scope `{ast.unparse(first.elts[0])}` is not the returned "
+                        f"current_scope `{ast.unparse(cur)}`", m.rel, n.lineno, f.name)
+    if res.instances < 2 and not res.findings:
+        raise AnalysisError(f"only {res.instances} scope-opening actions found in symbol_resolver")
+    res.analysed = [m.rel]
+    return res
+
+
+# --- R-REFKIND ---------------------------------------------------------------------------------------------------
+REFKIND_REVIEWED = {
+    # (module, function, variable): (reason the object can only be a Field at this site,
+    #                                (module, function) that must keep an isinstance(..., RuntimeParameter) test)
+    ("compiler/front_end/expression_bounds.py", "_compute_constraints_of_existence_function", "field"):
+        ("the argument of $present was checked by type_check._kind_check_field_reference, which rejects parameters "
+         "(fix 930c8c6); bounds are only computed for modules that passed type checking",
+         ("compiler/front_end/type_check.py", "_kind_check_field_reference")),
+}
+
+
+def _terminates(body):
+    return bool(body) and isinstance(body[-1], (ast.Return, ast.Raise, ast.Continue, ast.Break))
+
+
+def refkind(repo, schema, modules=None):
+    """R-REFKIND (C16/C13): the name a field reference starts or ends with can denote a Field *or* a RuntimeParameter
+    (both live in the structure's local scope).  An object looked up from a path element of a field reference
+    (`find_object(<ref>.path[k], ir)`, directly or through one local) therefore has one of two classes, and an attribute
+    that only `Field` declares in ir_data.py (read_transform, existence_condition, location, write_method, ...) may be
+    read from it only where an isinstance test has excluded parameters: `isinstance(v, ir_data.Field)` in the enclosing
+    condition (or an earlier operand of the same `and`), or an earlier `if isinstance(v, ir_data.RuntimeParameter):`
+    block that leaves the function/loop.  `ir_util.field_is_virtual(v)` is not such a test (it is true for parameters:
+    they have no `location`)."""
+    res = RuleResult("R-REFKIND")
+    field_only = set(schema.classes["Field"]) - set(schema.classes["RuntimeParameter"])
+    if "read_transform" not in field_only or "existence_condition" not in field_only:
+        raise AnalysisError("ir_data.py: Field/RuntimeParameter no longer differ in read_transform/existence_condition")
+    reviewed = set()
+    for key, (reason, (gmod, gfn)) in REFKIND_REVIEWED.items():
+        gm = repo.mod(gmod)
+        gf = [f for f in gm.funcs.values() if f.qualname == gfn]
+        ok = gf and any(isinstance(n, ast.Call) and call_name(n) == "isinstance" and len(n.args) == 2
+                        and ast.unparse(n.args[1]).endswith("RuntimeParameter") for n in ast.walk(gf[0].node))
+        res.instances += 1
+        if ok:
+            reviewed.add(key)
+    for m in repo.modules.values():
+        if not m.rel.startswith("compiler/") or (modules is not None and m.rel not in modules):
+            continue
+        for f in m.funcs.values():
+            bound = {}
+            for n in walk_no_nested_funcs(f.node):
+                if isinstance(n, ast.Assign) and len(n.targets) == 1 and isinstance(n.targets[0], ast.Name):
+                    bound.setdefault(n.targets[0].id, []).append(n)
+
+            def is_path_elem(e, depth=0):
+                if isinstance(e, ast.Name) and depth < 2 and len(bound.get(e.id, ())) == 1:
+                    return is_path_elem(bound[e.id][0].value, depth + 1)
+                return isinstance(e, ast.Subscript) and isinstance(e.value, ast.Attribute) and e.value.attr == "path" \
+                    and not isinstance(e.slice, ast.Slice)
+
+            tracked = {}
+            for name, assigns in bound.items():
+                for a in assigns:
+                    v = a.value
+                    if isinstance(v, ast.Call) and (call_name(v) or "").split(".")[-1] in ("find_object", "find_object_or_none") \
+                            and v.args and is_path_elem(v.args[0]):
+                        tracked.setdefault(name, a.lineno)
+            if not tracked:
+                continue
+            for name, assigns in bound.items():      # plain aliases of a tracked object: `field = referrent`
+                if name not in tracked and all(isinstance(a.value, ast.Name) and a.value.id in tracked for a in assigns):
+                    tracked[name] = assigns[0].lineno
+
+            def isinstance_of(t, var, cls):
+                return isinstance(t, ast.Call) and call_name(t) == "isinstance" and len(t.args) == 2 \
+                    and isinstance(t.args[0], ast.Name) and t.args[0].id == var and ast.unparse(t.args[1]).endswith(cls)
+
+            def positive_guard(test, var):
+                """test being true implies var is a Field."""
+                if isinstance_of(test, var, "Field"):
+                    return True
+                if isinstance(test, ast.BoolOp) and isinstance(test.op, ast.And):
+                    return any(positive_guard(v, var) for v in test.values)
+                if isinstance(test, ast.UnaryOp) and isinstance(test.op, ast.Not):
+                    return isinstance_of(test.operand, var, "RuntimeParameter")
+                return False
+
+            def negative_guard(test, var):
+                """test being false implies var is a Field (used for else branches / early exits)."""
+                if isinstance_of(test, var, "RuntimeParameter"):
+                    return True
+                if isinstance(test, ast.BoolOp) and isinstance(test.op, ast.Or):
+                    return any(negative_guard(v, var) for v in test.values)
+                if isinstance(test, ast.UnaryOp) and isinstance(test.op, ast.Not):
+                    return isinstance_of(test.operand, var, "Field")
+                return False
+
+            def scan(stmts, guarded):
+                guarded = set(guarded)
+                for st in stmts:
+                    if isinstance(st, ast.Assign) and len(st.targets) == 1 and isinstance(st.targets[0], ast.Name) \
+                            and st.targets[0].id in tracked:
+                        check_expr(st.value, guarded)
+                        if isinstance(st.value, ast.Name) and st.value.id in guarded:
+                            guarded.add(st.targets[0].id)          # alias of an object already known to be a Field
+                        else:
+                            guarded.discard(st.targets[0].id)      # rebinding: the new object is unclassified again
+                        continue
+                    if isinstance(st, (ast.If, ast.While)):
+                        check_expr(st.test, guarded)
+                        pos = {v for v in tracked if positive_guard(st.test, v)}
+                        neg = {v for v in tracked if negative_guard(st.test, v)}
+                        scan(st.body, guarded | pos)
+                        scan(st.orelse, guarded | neg)
+                        if isinstance(st, ast.If):
+                            if _terminates(st.body):
+                                guarded |= neg
+                            if st.orelse and _terminates(st.orelse):
+                                guarded |= pos
+                        continue
+                    if isinstance(st, ast.Assert):
+                        check_expr(st.test, guarded)
+                        continue
+                    if isinstance(st, (ast.For, ast.With, ast.Try)):
+                        for fld in ("iter", "items"):
+                            x = getattr(st, fld, None)
+                            if isinstance(x, ast.AST):
+                                check_expr(x, guarded)
+                        for blk in ("body", "orelse", "finalbody"):
+                            scan(getattr(st, blk, []) or [], guarded)
+                        for h in getattr(st, "handlers", []):
+                            scan(h.body, guarded)
+                        continue
+                    if isinstance(st, (ast.FunctionDef, ast.ClassDef)):
+                        continue
+                    check_expr(st, guarded)
+
+            def check_expr(e, guarded):
+                # `a and b`: b is evaluated only when a is true; `x if c else y` likewise
+                if isinstance(e, ast.BoolOp) and isinstance(e.op, ast.And):
+                    g = set(guarded)
+                    for v in e.values:
+                        check_expr(v, g)
+                        g |= {t for t in tracked if positive_guard(v, t)}
+                    return
+                if isinstance(e, ast.BoolOp) and isinstance(e.op, ast.Or):
+                    g = set(guarded)
+                    for v in e.values:
+                        check_expr(v, g)
+                        g |= {t for t in tracked if negative_guard(v, t)}
+                    return
+                if isinstance(e, ast.IfExp):
+                    check_expr(e.test, guarded)
+                    check_expr(e.body, guarded | {t for t in tracked if positive_guard(e.test, t)})
+                    check_expr(e.orelse, guarded | {t for t in tracked if negative_guard(e.test, t)})
+                    return
+                if isinstance(e, ast.Attribute) and isinstance(e.value, ast.Name) and e.value.id in tracked \
+                        and e.attr in field_only:
+                    res.instances += 1
+                    var = e.value.id
+                    if var not in guarded and (m.rel, f.qualname, var) not in reviewed:
+                        res.add(f"{m.rel}|{f.qualname}|{var}.{e.attr}", f"{f.qualname} reads `{var}.{e.attr}` from an object looked up "
+                                f"through a field-reference path element (line {tracked[var]}); the name may denote a runtime "
+                                f"parameter, which has no `{e.attr}`: AttributeError (a traceback) on `p.x`, `$present(p)` or an "
+                                "alias of a parameter instead of a diagnostic.  No isinstance test excludes parameters on this path "
+                                "(field_is_virtual() is true for parameters)", m.rel, e.lineno, f.qualname)
+                    return
+                for c in ast.iter_child_nodes(e):
+                    if isinstance(c, (ast.FunctionDef, ast.Lambda)):
+                        continue
+                    check_expr(c, guarded)
+
+            scan(f.node.body, set())
+            if len(res.samples) < 6:
+                res.samples.append(f"{f.qualname}: {sorted(tracked)}")
+    if res.instances < (3 if modules is None else 2) and not res.findings:
+        raise AnalysisError(f"only {res.instances} Field-only attribute reads on path lookups found")
+    res.analysed = ["compiler/front_end/*.py", "compiler/back_end/cpp/header_generator.py", "compiler/util/ir_data.py"]
     return res
